@@ -62,6 +62,12 @@ def walk(
         conns = {**m.signals, **m.ports}
     if root is None:
         root = m  # The Module being flattened, whose own names the path-names must not collide with
+    for key, attr in m.namespace.items():
+        # Nets are matched *by name* below. An attribute renamed after it was added, or held under two names,
+        # makes those names ambiguous. Fail rather than silently merging (or splitting) nets.
+        if attr.name != key:
+            msg = f"Cannot flatten {root}: attribute `{key}` of {m} is named `{attr.name}`"
+            raise RuntimeError(msg)
     for inst in m.instances.values():
         new_conns = {}
         new_parents = parents + [inst]
